@@ -23,6 +23,7 @@ extern int      vh_tier;      /* 0 = quick, 1 = thorough */
 extern uint64_t vh_seed0;     /* VERIF_SEED */
 extern int      vh_shard, vh_nshards;
 extern int      vh_verbose;   /* set in replay mode */
+extern uint64_t vh_unit_salt; /* differs from unit to unit: for choices that must not be the same in every forked unit */
 extern int      vh_slice;     /* >1: run only every vh_slice-th unit (coverage builds) */
 extern int      vh_light;     /* secondary build configuration of the thorough tier: the very large enumerations may be thinned */
 
